@@ -1083,7 +1083,7 @@ func runC15(c *lib.Ctx) {
 	c.Ev.Coverage["model_rejected_inputs"] = modelRejected
 	c.Ev.Coverage["sweep_cells_failing"] = len(cellOrder)
 	c.Ev.Coverage["disagreements_checked"] = len(cases) - agree
-	c.Ev.Coverage["rule"] = "cases = (control string, argument tuple); sweep = per directive x modifiers x parameter class x argument class cells (exhaustive, seed independent; ~@R/~:@R over all of 1..3999) + implementation-only relations (~A=princ, ~S=prin1, destinations); composite = seeded random compositions of up to 4 directives incl. nesting, avoiding constructs listed in findings; non-trivial = a directive has a parameter or modifier, or >= 2 directives; distinct by (control, arguments)"
+	c.Ev.Coverage["rule"] = "cases = (control string, argument tuple); sweep = per directive x modifiers x parameter class x argument class cells (exhaustive, seed independent; ~@R/~:@R over all of 1..3999) + cursor-boundary, no-argument-left, V/+ parameter and colinc-0 cells + nested conditionals (every inner kind in every clause of every outer kind, in- and out-of-range selectors) + histories (mode seq: several calls in one fresh process, each compared with the model, values unique to the history) + implementation-only relations (~A=princ, ~S=prin1, destinations); composite = seeded random compositions of up to 4 directives incl. nesting, avoiding constructs listed in findings; non-trivial = a directive has a parameter or modifier, or >= 2 directives; distinct by (control, arguments)"
 }
 
 // c15Shrink removes top-level units (with their arguments) while the case still disagrees.
